@@ -1,6 +1,6 @@
 (* C06 — Generalized Rush-Larsen step follows the exponential-integrator formula, guarded. *)
 From Coq Require Import Reals QArith Qreals.
-From GX Require Import Base Expr Topo Ode Target Sem Codegen Load Valid Run Schemes RealsC DiffR.
+From GX Require Import Base Expr Topo Ode Target Sem Codegen Load Valid Run Schemes RealsC DiffR MirrorValid MirrorRL.
 Close Scope Q_scope.
 Close Scope R_scope.
 Open Scope string_scope.
@@ -99,3 +99,32 @@ Theorem C06_step_agrees_with_euler_to_first_order_in_dt :
          (fun dt : R => slot_value ROps md delta x f g dt) 0%R f.
 Proof. exact slot_first_order_is_euler. Qed.
 Print Assumptions C06_step_agrees_with_euler_to_first_order_in_dt.
+
+(* the mirror of the Rush-Larsen generator is a verified compiler: for every well-formed model - names unique and
+   not reserved also after adding the helpers d<state>_dt_linearized -, every set of stiff states and every assignment
+   of modes to the states (the per-state decision Euler / guarded / plain that sympy makes and the check reads off the
+   code), the generated function passes the validator and returns in every slot the value the property prescribes
+   for that slot's mode, in any carrier with the field laws.  The implementation's generalized and hybrid functions
+   are compared with this function statement by statement. *)
+Theorem C06_mirror_rush_larsen_is_correct_for_every_well_formed_model :
+  forall (T : Type) (N : NumOps T) (o : ode) ru modes stiff delta name order ss f (inp : inputs T),
+    FieldLaws N ->
+    sorted_states o = Some ss -> wf_gen o ss true = true ->
+    NoDup (all_names (extend_lin o)) ->
+    (forall x, In x (all_names (extend_lin o)) -> resv true x = false) ->
+    (forall x, In x (missing_names (extend_lin o)) -> resv true x = false) ->
+    missing_names (extend_lin o) = missing_names o ->
+    gen_rl o ru modes stiff delta name order = Some f ->
+    sizes_ok o ss inp ->
+    valid_scheme o ss inp modes stiff delta f = true
+    /\ exists out,
+        exec N f true inp = Some out
+        /\ List.length out = List.length ss
+        /\ forall i s, nth_error ss i = Some s ->
+             exists sv fv gv,
+               nth_error (in_states inp) i = Some sv
+               /\ Sem N (extend_lin o) ss inp true (deriv_name_of s) fv
+               /\ (slot_mode modes stiff i s = MEuler \/ Sem N (extend_lin o) ss inp true (lin_name (deriv_name_of s)) gv)
+               /\ nth_error out i = Some (slot_value N (slot_mode modes stiff i s) delta sv fv gv (in_dt inp)).
+Proof. exact @mirror_rl_correct. Qed.
+Print Assumptions C06_mirror_rush_larsen_is_correct_for_every_well_formed_model.
